@@ -636,6 +636,14 @@ func (e *engine) eval() error {
 			for i, baseTerm := range internalPremise.Args {
 				if v, ok := baseTerm.(ast.Variable); ok {
 					if c, ok := fact.Args[i].(ast.Constant); ok {
+						if prev, bound := subst.Get(v).(ast.Constant); bound && v.Symbol != "_" {
+							if !prev.Equals(c) {
+								// The store matches constants only. A variable that
+								// occurs twice has to agree in both columns.
+								return nil
+							}
+							continue
+						}
 						subst = subst.Extend(v, c)
 					}
 				}
